@@ -70,6 +70,10 @@ type RespScript struct {
 	// RefuseBody: the backend answers from the request head alone, without reading the request body
 	// (an origin that refuses an upload: 401 / 413 / 417), and closes the connection afterwards.
 	RefuseBody bool `json:"refuse_body,omitempty"`
+	// Freeze (opt-in, C03; l2_outage.go): once the request head has arrived the backend reads nothing more
+	// (no request body byte) and writes nothing; the connection stays open until the exchange's barrier is
+	// closed or the backend is closed - a frozen process behind a socket the kernel keeps open.
+	Freeze bool `json:"freeze,omitempty"`
 }
 
 // SeenRequest is what a raw backend recorded for one request.
@@ -110,6 +114,9 @@ type exchange struct {
 	hold    chan struct{} // closed to release a held request
 	arrived chan struct{} // closed when the request has arrived at the backend
 	seen    *SeenRequest
+	// played (observation only; l2_played.go): the instant at which the backend had handed the whole
+	// scripted response of this exchange to its socket, or had given up writing it; nil = not yet.
+	played atomic.Pointer[time.Time]
 }
 
 func NewRawBackend(index int) (*RawBackend, error) {
@@ -274,6 +281,10 @@ func (b *RawBackend) handle(c net.Conn, br *bufio.Reader, req *http.Request) (ke
 	if script != nil && script.Continue100 && strings.EqualFold(strings.TrimSpace(req.Header.Get("Expect")), "100-continue") {
 		_, _ = c.Write([]byte("HTTP/1.1 100 Continue\r\n\r\n"))
 	}
+	if script != nil && script.Freeze {
+		b.freeze(ex)
+		return false
+	}
 	if script != nil && script.RefuseBody {
 		_ = b.play(c, req, script, ex)
 		return false
@@ -290,7 +301,12 @@ func (b *RawBackend) handle(c net.Conn, br *bufio.Reader, req *http.Request) (ke
 	if script.Hold && ex != nil {
 		<-ex.hold
 	}
-	return b.play(c, req, script, ex)
+	keepAlive = b.play(c, req, script, ex)
+	if ex != nil {
+		now := time.Now()
+		ex.played.Store(&now)
+	}
+	return keepAlive
 }
 
 func hasCL(req *http.Request) bool {
